@@ -53,3 +53,9 @@ Proof. vm_compute. reflexivity. Qed.
 
 Example ex_reported : (reported_dic (stamp 2 9), reported_dic (oov_id 4)) = (2%Z, (-1)%Z).
 Proof. vm_compute. reflexivity. Qed.
+
+(* joined tokens: dictionary word of user dictionary 1 + two OOV pieces (POS ids 4, 4) is OOV; two dictionary words join to
+   (largest dictionary, MAX_WORD); what taking the id of the first part instead would report *)
+Example ex_join_oov : (reported_dic (join_oov_wid [stamp 1 3; oov_id 4; oov_id 4]), reported_dic (join_oov_wid [stamp 1 3; stamp 2 0]),
+                       reported_dic (stamp 1 3)) = ((-1)%Z, 2%Z, 1%Z).
+Proof. vm_compute. reflexivity. Qed.
